@@ -106,6 +106,37 @@ fn main() {
             let s = checks::matrix::record(a.seed, opt("count").and_then(|s| s.parse().ok()).unwrap_or(2000), &opt("trace").expect("--opt trace=FILE"));
             write_summary(&a, &s);
         }
+        "record-gamma" => {
+            let s = checks::gamma::record(a.seed, opt("shapes").and_then(|s| s.parse().ok()).unwrap_or(120), opt("dense").is_some(), &opt("trace").expect("--opt trace=FILE"));
+            write_summary(&a, &s);
+        }
+        "replay-gamma" => {
+            let lines = read_lines(a.input.as_ref().unwrap());
+            let s = checks::gamma::replay(&lines, &opt("trace").expect("--opt trace=FILE"));
+            write_summary(&a, &s);
+        }
+        "record-vector" => {
+            let s = checks::vector::record(a.seed, opt("num").and_then(|s| s.parse().ok()).unwrap_or(2000), &opt("trace").expect("--opt trace=FILE"));
+            write_summary(&a, &s);
+        }
+        "api-child" => {
+            let lines = read_lines(a.input.as_ref().unwrap());
+            checks::api::child(&lines, opt("origins").and_then(|s| s.parse().ok()).unwrap_or(6), opt("args").and_then(|s| s.parse().ok()).unwrap_or(4));
+        }
+        "record-api" => {
+            let lines = read_lines(a.input.as_ref().unwrap());
+            let o = checks::api::ApiOpts {
+                seed: a.seed,
+                origins: opt("origins").and_then(|s| s.parse().ok()).unwrap_or(6),
+                args: opt("args").and_then(|s| s.parse().ok()).unwrap_or(4),
+                threads: opt("threads").and_then(|s| s.parse().ok()).unwrap_or(8),
+                calls_per_thread: opt("calls").and_then(|s| s.parse().ok()).unwrap_or(500),
+                nolog_bin: opt("nolog"),
+                input: a.input.clone().unwrap(),
+            };
+            let s = checks::api::run(&lines, &o, &opt("trace").expect("--opt trace=FILE"));
+            write_summary(&a, &s);
+        }
         "record-flow" => {
             let lines = read_lines(a.input.as_ref().unwrap());
             let o = checks::flow::FlowOpts {
